@@ -87,9 +87,24 @@ func (n *vfNext) ServeHTTP(w http.ResponseWriter, r *http.Request) {
 		vfRequest(n.cl, n, verifName("src", id))
 	}
 	if verifBool(verifName("panic", id)) {
-		panic("handler aborted")
+		// what a handler may panic with: anything, including the value net/http itself uses to
+		// abort a response (ReverseProxy panics with it when the copy to the client fails)
+		pk := verifInt("panicKind") // one kind per history
+		verifAssume(verifAnd(pk >= 0, pk <= 2))
+		switch verifConcretize(pk, 0, 2) {
+		case 0:
+			panic("handler aborted")
+		case 1:
+			panic(http.ErrAbortHandler)
+		default:
+			panic(vfPanicErr{})
+		}
 	}
 }
+
+type vfPanicErr struct{}
+
+func (vfPanicErr) Error() string { return "handler failed" }
 
 func vfRequest(cl *ConnLimiter, n *vfNext, srcName string) {
 	s := verifConcretize(verifInt(srcName), 0, 1)
